@@ -15,7 +15,7 @@ CONSTANTS
   As = {100, 101, 102, 105}
   Bs = {8425, 8426, 8431, 9000, 12345, 20000}
   Ps = {0, 90}
-  Shapes = {"pair", "swapped", "suffix", "nested"}
+  Shapes = {"pair", "swapped", "suffix", "nested", "triple", "adjacent_first", "adjacent_last"}
   CountA = 300
   CountB = 301
   Suffix = 60000
